@@ -216,6 +216,30 @@ PURE = ['count', 'find', 'rfind', 'index', 'rindex', 'endswith', 'isalnum', 'isa
 RETURNS_STRINGS = {'__getitem__', '__add__', 'join', 'copy', 'partition', 'rpartition', 'split', 'rsplit', '_split', 'splitlines'}
 
 
+def _cache_key_problem(w):
+    """w = (ref, node, desc) of a store into a module / class level container.  None when the stored entry is keyed on every parameter its function reads;
+    otherwise what is missing (a string)."""
+    node = w[1]
+    stn = node
+    while stn is not None and not isinstance(stn, ast.stmt):
+        stn = getattr(stn, '_parent', None)
+    fn_ = stn
+    while fn_ is not None and not isinstance(fn_, ast.FunctionDef):
+        fn_ = getattr(fn_, '_parent', None)
+    if not (isinstance(stn, ast.Assign) and len(stn.targets) == 1 and isinstance(stn.targets[0], ast.Subscript)) or fn_ is None:
+        return 'a run-time filled store: what it holds depends on earlier calls'
+    key = stn.targets[0].slice
+    a_ = fn_.args
+    params = [x.arg for x in a_.posonlyargs + a_.args + a_.kwonlyargs if x.arg not in ('self', 'cls')]
+    read = {n.id for n in ast.walk(fn_) if isinstance(n, ast.Name) and isinstance(n.ctx, ast.Load) and n.id in params}
+    in_key = {n.id for n in ast.walk(key) if isinstance(n, ast.Name)}
+    missing = sorted(read - in_key)
+    if missing:
+        return 'the entry is keyed on %s only, the result also depends on %s: a second call with a different %s gets the first call\'s answer' % (
+            norm(key), ', '.join(missing), missing[0])
+    return None
+
+
 @rule('E3', 'pure-methods: queries, renderers, slicing, concatenation, copy, split family write neither receiver nor arguments; their '
             'AnsiString results are fresh', floor=44)
 def E3(m, R):
@@ -231,6 +255,14 @@ def E3(m, R):
             ws = _nonlocal_writes(a)
             if qual == 'parse_graphic_sequence':
                 ws = [w for w in ws if not w[0][0].startswith('Arg:')]   # argument writes are rule E4's
+            # a write into a module / class level store is a cache: harmless for the result only if its key tells apart everything the result depends on
+            kept = []
+            for w in ws:
+                why = _cache_key_problem(w) if w[0][0].startswith('Store:') else ''
+                if why is None:
+                    continue            # keyed on every parameter the function reads
+                kept.append((w[0], w[1], w[2] + ('; ' + why if why else '')))
+            ws = kept
             if ws:
                 r, node, desc = ws[0]
                 R.viol(f, node, 'writes %s (%s)' % (_fmt(r), desc), construct=cons,
